@@ -132,6 +132,17 @@ type Collected struct {
 	Paths []datamodel.Path
 }
 
+// keptPaths: a visitor may keep the Progress.Path it was given; after the walk each kept path still reads as it
+// did inside the callback.
+func (c *Collected) keptPaths() error {
+	for i := range c.Paths {
+		if i < len(c.Visits) && c.Paths[i].String() != c.Visits[i].Path {
+			return fmt.Errorf("the path kept from visit %d read %q inside the callback and reads %q after the walk", i, c.Visits[i].Path, c.Paths[i].String())
+		}
+	}
+	return nil
+}
+
 // WalkAdv runs Progress.WalkAdv and collects (path, reason, value) of every callback.
 func WalkAdv(r *graph.Real, prog traversal.Progress, s selector.Selector) (c Collected) {
 	*r.Loads = (*r.Loads)[:0]
@@ -155,6 +166,9 @@ func WalkAdv(r *graph.Real, prog traversal.Progress, s selector.Selector) (c Col
 	c.Err = err
 	if err == nil {
 		c.Err = readErr
+	}
+	if c.Err == nil {
+		c.Err = c.keptPaths()
 	}
 	return c
 }
@@ -182,6 +196,9 @@ func WalkMatching(r *graph.Real, prog traversal.Progress, s selector.Selector) (
 	c.Err = err
 	if err == nil {
 		c.Err = readErr
+	}
+	if c.Err == nil {
+		c.Err = c.keptPaths()
 	}
 	return c
 }
